@@ -203,6 +203,14 @@ func C06(c *core.Ctx) {
 		{"shared key: Handshake(wrong key) || Send || Reconnect", ccfg{host: []byte("h"), key: key}, connect, func(cf ccfg) [][]concOp {
 			return [][]concOp{{{kind: "H", hsGood: false, ping: concPing(cf)}}, {concSend(cf, "message", 20, "", true)}, {{kind: "R", dialOK: true}}}
 		}},
+		{"shared key, acks, after a completed handshake: Send || Send || Reconnect", ccfg{host: []byte("h"), key: key, ack: true, timeout: time.Second},
+			[]concOp{{kind: "C", dialOK: true}, {kind: "H", hsGood: true, ping: concPing(ccfg{host: []byte("h"), key: key, ack: true, timeout: time.Second})}}, func(cf ccfg) [][]concOp {
+				return [][]concOp{{concSend(cf, "message", 20, "qa", true)}, {concSend(cf, "message", 21, "qb", true)}, {{kind: "R", dialOK: true}}}
+			}},
+		{"shared key, acks, after a completed handshake: Send || Send;Send || Disconnect;Connect", ccfg{host: []byte("h"), key: key, ack: true, timeout: time.Second},
+			[]concOp{{kind: "C", dialOK: true}, {kind: "H", hsGood: true, ping: concPing(ccfg{host: []byte("h"), key: key, ack: true, timeout: time.Second})}}, func(cf ccfg) [][]concOp {
+				return [][]concOp{{concSend(cf, "message", 20, "qa", true)}, {concSend(cf, "message", 21, "qb", true), concSend(cf, "message", 22, "qc", true)}, {{kind: "D"}, {kind: "C", dialOK: true}}}
+			}},
 		{"no key: Send;Send || Disconnect || Reconnect(fail)", ccfg{host: []byte("h")}, connect, func(cf ccfg) [][]concOp {
 			return [][]concOp{{concSend(cf, "message", 20, "", true), concSend(cf, "message", 22, "", true)}, {{kind: "D"}}, {{kind: "R", dialOK: false}}}
 		}},
